@@ -28,6 +28,11 @@ func lemmaVarVal(vc *VC, th Theory, lv LogicalVar) (Val, error) {
 		return mk(lv.Name, MT{16, true}), nil
 	case "i64":
 		return mk(lv.Name, MT{64, true}), nil
+	case "bytes":
+		ln := vc.fresh(lv.Name+"_len", sortInt)
+		off := vc.fresh(lv.Name+"_off", sortInt)
+		vc.assume(mkAnd(mkCmp("<=", intT64(0), ln), mkCmp("<=", intT64(0), off)))
+		return &SliceV{Arr: vc.fresh(lv.Name+"_arr", sortArr), Off: off, Len: ln, Cap: ln, Elem: MT{8, false}, IsString: true}, nil
 	case "decimal":
 		return Agg{Elems: []Val{mk(lv.Name+"_lo", u64), mk(lv.Name+"_hi", u64)}}, nil
 	case "u128":
@@ -50,7 +55,9 @@ func genLemmas(w *World, filter func(l *Lemma) bool) ([]*Obligation, error) {
 		}
 		vc := newVC("lemma."+l.Name, l.Mode)
 		var rsTerms [][2]T
-		ev := &Evaluator{th: th, vc: vc, pkg: w.tpkg, sigs: w.sigs[l.Mode]}
+		ev := &Evaluator{th: th, vc: vc, pkg: w.tpkg, sigs: w.sigs[l.Mode], folds: w.foldMap(), typeTag: w.typeTag}
+		var foldApps []foldApp
+		ev.onFold = func(name string, arr, off, n T) { foldApps = append(foldApps, foldApp{name, arr, off, n}) }
 		ev.onRS = func(v, e T) { rsTerms = append(rsTerms, [2]T{v, e}) }
 		var decs [][2]T
 		ev.onDec = func(lo, hi T) { decs = append(decs, [2]T{lo, hi}) }
@@ -66,6 +73,7 @@ func genLemmas(w *World, filter func(l *Lemma) bool) ([]*Obligation, error) {
 			vc.Inputs = append(vc.Inputs, ins...)
 		}
 		var evalErrOut error
+		var indObl *Obligation
 		func() {
 			defer func() {
 				if r := recover(); r != nil {
@@ -76,8 +84,34 @@ func genLemmas(w *World, filter func(l *Lemma) bool) ([]*Obligation, error) {
 					panic(r)
 				}
 			}()
+			var hypTs []T
 			for _, h := range l.Hyps {
-				vc.assume(ev.boolOf(ev.Eval(h.E, env)))
+				t := ev.boolOf(ev.Eval(h.E, env))
+				hypTs = append(hypTs, t)
+				vc.assumeAlways(t)
+			}
+			if l.Induct != "" && l.Goal != nil {
+				mv, ok := env.vars[l.Induct].(Leaf)
+				if !ok || mv.T.Sort.K != SInt {
+					evalErrOut = fmt.Errorf("lemma %s: induction variable must be an int variable", l.Name)
+					return
+				}
+				// well-foundedness: the hypotheses bound the induction variable from below
+				lb := ev.specOf(ev.Eval(l.InductFrom.E, env))
+				ob := vc.oblige("induct-bound", "lemma", tTrue, mkCmp(">=", mv.T, lb), "hypotheses imply "+l.Induct+" >= "+l.InductFrom.Text, fmt.Sprintf("contracts:%d", l.Line))
+				ob.Inputs = vc.Inputs
+				indObl = ob
+				// induction hypothesis at m-1
+				env2 := &Env{vars: map[string]Val{}}
+				for k, v := range env.vars {
+					env2.vars[k] = v
+				}
+				env2.vars[l.Induct] = Leaf{T: mkSub(mv.T, intT64(1))}
+				var h2 []T
+				for _, h := range l.Hyps {
+					h2 = append(h2, ev.boolOf(ev.Eval(h.E, env2)))
+				}
+				vc.assume(mkImp(mkAnd(h2...), ev.boolOf(ev.Eval(l.Goal.E, env2))))
 			}
 			if l.Goal == nil {
 				evalErrOut = fmt.Errorf("lemma %s has no holds clause", l.Name)
@@ -95,6 +129,11 @@ func genLemmas(w *World, filter func(l *Lemma) bool) ([]*Obligation, error) {
 				for _, d := range decs {
 					o.Extra = append(o.Extra, w.exportedInstances(d[0], d[1])...)
 				}
+			}
+			o.Extra = append(o.Extra, w.foldInstances(foldApps, 2)...)
+			if indObl != nil {
+				indObl.Extra = o.Extra
+				out = append(out, indObl)
 			}
 			out = append(out, o)
 			if len(l.Hyps) > 0 {
